@@ -132,6 +132,38 @@ def tryInc (cap : CapFn) (now : Nat) (wd : WindowData) (s : KeyState) : KeyState
   if cap (wd.allowed + s1.spill) wd.ratio ≤ (s1.counter : Int) then (s1, false)
   else ({ s1 with counter := s1.counter + 1 }, true)
 
+/-! ### Clock readings
+
+The code reads the clock (`state.clock.Now()`) a fixed number of times per call, and a real clock MOVES between
+readings.  The model is explicit about it:
+  * `TryToIncrement` makes exactly ONE reading (in `ensureWindowIsUpdated`): the same instant computes the grid
+    window (`currentWindowEndTime`) AND decides the roll-over (`!currentTime.Before(windowEndTime)`) — that
+    single instant is the `now` of `ensure`/`tryInc` and the `t` of the request/event;
+  * `Counter()` makes exactly ONE reading;
+  * `OnRequest` itself makes none (a request answered by a default behaviour reads no clock).
+The harness drives the code with a clock that advances on every reading and compares the number of readings. -/
+
+def readsTryToIncrement : Nat := 1
+def readsCounter : Nat := 1
+
+/-- What the code must NOT do (and once did in a seeded change): compute the grid window from one reading
+    `tWin` and decide the roll-over from a LATER reading `tRoll`. -/
+def ensure2 (tWin tRoll : Nat) (s : KeyState) : KeyState :=
+  let wd := s.wd
+  let endT := (tWin / wd.W) * wd.W + wd.W
+  if s.windowEnd ≤ tRoll then
+    let spill :=
+      if wd.spillOn && s.windowEnd != 0 then
+        (if dayOfMonth tWin == wd.renewDay then 0 else s.spill + wd.allowed - s.counter)
+      else s.spill
+    { s with counter := 0, spill := spill, windowEnd := endT }
+  else s
+
+def tryInc2 (cap : CapFn) (tWin tRoll : Nat) (wd : WindowData) (s : KeyState) : KeyState × Bool :=
+  let s1 := ensure2 tWin tRoll (adjust wd s)
+  if cap (wd.allowed + s1.spill) wd.ratio ≤ (s1.counter : Int) then (s1, false)
+  else ({ s1 with counter := s1.counter + 1 }, true)
+
 section Limiter
 variable {κ : Type} [DecidableEq κ]
 
@@ -182,6 +214,14 @@ def finalL (cap : CapFn) : State κ → List (Req κ) → State κ
 def runK (cap : CapFn) : KeyState → List (Req κ) → List (Event κ)
   | _, [] => []
   | s, r :: rs => let (s', p) := tryInc cap r.t r.wd s; ⟨r.key, r.t, r.wd, p⟩ :: runK cap s' rs
+
+/-- A run in which the k-th request is handled with two readings `r.t` and `r.t + ticks[k]`, the second one
+    deciding the roll-over; events are attributed to the FIRST reading. -/
+def runK2 (cap : CapFn) : KeyState → List (Req κ × Nat) → List (Event κ)
+  | _, [] => []
+  | s, (r, tick) :: rs =>
+    let (s', p) := tryInc2 cap r.t (r.t + tick) r.wd s
+    ⟨r.key, r.t, r.wd, p⟩ :: runK2 cap s' rs
 
 /-- `RateLimitState.Counters()` at instant `now`: every key's `Counter()`.  After the repair fix F09d it only
     READS: 0 when the stored window is over, else the stored counter (before, it called
